@@ -133,9 +133,11 @@ Outstanding == Len(grants) - rel          \* granted and not yet released (may g
 Conservation == value = cfg.init + rel - Len(grants)
 NoOverGrant  == cfg.kind # "sem" => (Outstanding <= cfg.init /\ value <= cfg.init)
 NoIdlePermit == value > 0 => q = <<>>
-FifoGrants   == \A i, j \in 1..Len(grants) : i < j => grants[i] < grants[j]
-QueueOrdered == \A i, j \in 1..Len(q) : i < j => q[i] < q[j]
-GrantedOnce  == \A i, j \in 1..Len(grants) : i # j => grants[i] # grants[j]
+\* stated over adjacent pairs (equivalent by transitivity of <; linear instead of quadratic so that
+\* trace validation with > 100 waiters stays cheap)
+FifoGrants   == \A i \in 1..(Len(grants) - 1) : grants[i] < grants[i + 1]
+QueueOrdered == \A i \in 1..(Len(q) - 1) : q[i] < q[i + 1]
+GrantedOnce  == \A i \in 1..(Len(grants) - 1) : grants[i] # grants[i + 1]
 DeadNeverGranted == \A i \in 1..Len(grants) : st[grants[i]] = "granted"
 
 (* a waiter that timed out, was cancelled or was granted never changes state again *)
